@@ -82,6 +82,7 @@ __CPROVER_ensures(__CPROVER_return_value == 0 ==> ( \
 __CPROVER_ensures(__CPROVER_return_value != 0 ==> *out == NULL)
 
 DECL_OPS_SIGN_SHA_HMAC(contract_ops_sign_sha_hmac, GATE_HMAC_FULL);
+DECL_OPS_SIGN_SHA_HMAC(contract_all_ops_sign_sha_hmac, GATE_HMAC_FULL);
 DECL_OPS_SIGN_SHA_HMAC(contract_C09_ops_sign_sha_hmac, GATE_HMAC_C09);
 DECL_OPS_SIGN_SHA_HMAC(contract_C02_ops_sign_sha_hmac, GATE_HMAC_C02);
 DECL_OPS_SIGN_SHA_HMAC(contract_nogate_ops_sign_sha_hmac, GATE_NONE);
@@ -107,6 +108,7 @@ __CPROVER_ensures(SPEC_ERRMSG_TERMINATED(jwt)) \
 SPEC_ERR_MONOTONE(jwt)
 
 DECL_OPS_SIGN_SHA_PEM(contract_ops_sign_sha_pem, GATE_PEM_FULL);
+DECL_OPS_SIGN_SHA_PEM(contract_all_ops_sign_sha_pem, GATE_PEM_FULL);
 DECL_OPS_SIGN_SHA_PEM(contract_C09_ops_sign_sha_pem, GATE_PEM_C09);
 DECL_OPS_SIGN_SHA_PEM(contract_C02_ops_sign_sha_pem, GATE_PEM_C02);
 DECL_OPS_SIGN_SHA_PEM(contract_nogate_ops_sign_sha_pem, GATE_NONE);
@@ -143,6 +145,7 @@ __CPROVER_ensures(SPEC_ERRMSG_TERMINATED(jwt)) \
 SPEC_ERR_MONOTONE(jwt)
 
 DECL_OPS_VERIFY_SHA_PEM(contract_ops_verify_sha_pem, GATE_PEM_FULL);
+DECL_OPS_VERIFY_SHA_PEM(contract_all_ops_verify_sha_pem, GATE_PEM_FULL);
 DECL_OPS_VERIFY_SHA_PEM(contract_C09_ops_verify_sha_pem, GATE_PEM_C09);
 DECL_OPS_VERIFY_SHA_PEM(contract_C02_ops_verify_sha_pem, GATE_PEM_C02);
 DECL_OPS_VERIFY_SHA_PEM(contract_nogate_ops_verify_sha_pem, GATE_NONE);
